@@ -31,6 +31,8 @@ pub struct Report {
     /// obligations whose two sides were the same hash-consed node (no solver reasoning needed)
     pub trivial: u64,
     pub nontrivial_keys: BTreeSet<String>,
+    /// distinct (configuration, obligation kind) pairs discharged by term identity
+    pub syntactic_keys: BTreeSet<String>,
     pub witnesses_expected: u64,
     pub witnesses_found: u64,
     pub canaries_expected: u64,
@@ -64,6 +66,7 @@ impl Report {
         self.discharged += o.discharged;
         self.trivial += o.trivial;
         self.nontrivial_keys.extend(o.nontrivial_keys);
+        self.syntactic_keys.extend(o.syntactic_keys);
         self.witnesses_expected += o.witnesses_expected;
         self.witnesses_found += o.witnesses_found;
         self.canaries_expected += o.canaries_expected;
@@ -123,6 +126,7 @@ impl Report {
         j.set("discharged", self.discharged);
         j.set("trivial", self.trivial);
         j.set("nontrivial", self.nontrivial_keys.len());
+        j.set("term_identity_cases", self.syntactic_keys.len());
         j.set("witnesses_expected", self.witnesses_expected);
         j.set("witnesses_found", self.witnesses_found);
         j.set("canaries_expected", self.canaries_expected);
@@ -291,6 +295,7 @@ impl Chk {
     }
     /// an obligation discharged without the solver because both sides are the same hash-consed node
     pub fn trivially_holds(&mut self, kind: &str) {
+        self.rep.syntactic_keys.insert(format!("{}|{kind}", self.cfg_name));
         self.rep.obligations += 1;
         self.rep.discharged += 1;
         self.rep.trivial += 1;
